@@ -60,6 +60,16 @@ theorem run_spec (op : ROp) (s : Bytes) (h : ROp.pre op s) :
     have hn : n ≤ s.length := h
     exact ⟨.subreader (s.take n), s.drop n, by simp [ROp.run, Rdr.sub, hn, Except.map], Or.inl ⟨hn, rfl, rfl⟩⟩
 
+/-- a refused slice request is not an event for the cursor: nothing is returned and the position stays,
+    so whatever is asked next is answered as if the refused request had not been made -/
+theorem bytes_refused (s : Bytes) (n : Nat) (h : s.length < n) : (ROp.bytes n).run s = .ok (.none, s) := by
+  have : ¬ n ≤ s.length := by omega
+  simp [ROp.run, Rdr.bytes, this]
+
+theorem bytes_refused_then (s : Bytes) (n : Nat) (ops : List ROp) (h : s.length < n) :
+    runOps s (.bytes n :: ops) = ((.none, s.length) :: (runOps s ops).1, (runOps s ops).2) := by
+  simp only [runOps, bytes_refused s n h]
+
 /-- consumed ++ remaining = original, for every operation that returns -/
 theorem run_partition (op : ROp) (s r : Bytes) (v : RVal) (h : op.run s = .ok (v, r)) :
     ∃ c, s = c ++ r := by
